@@ -96,7 +96,10 @@ func onlyBase(s *Snap, what string, cs sdk.Coins) sdk.Int {
 }
 
 // TakeSnap scans the store of the current history branch.
-func (w *World) TakeSnap() *Snap {
+func (w *World) TakeSnap() *Snap { return w.SnapOf(w.curCtx()) }
+
+// SnapOf scans the store as seen by ctx (used for throw-away branches too).
+func (w *World) SnapOf(ctx sdk.Context) *Snap {
 	s := &Snap{Height: w.height, Time: w.now,
 		Defs: map[string]types.ServiceDefinition{}, DefRaw: map[string]string{},
 		Bindings: map[string]types.ServiceBinding{}, OwnerBindings: map[string]OwnerBindingRec{},
@@ -107,7 +110,6 @@ func (w *World) TakeSnap() *Snap {
 		Responses: map[string]types.Response{}, Volumes: map[string]uint64{}, Earned: map[string]sdk.Int{},
 		EarnedRawKeys: map[string]string{}, OwnerEarned: map[string]sdk.Int{}, Bal: map[string]sdk.Int{},
 	}
-	ctx := w.curCtx()
 	s.Params = w.a.k.GetParams(ctx) // params live in the params module's store; read through its subspace
 	store := ctx.KVStore(w.a.app.GetKey(types.StoreKey))
 	h := sha256.New()
